@@ -6,6 +6,8 @@ import json
 import os
 import random
 import shutil
+import sys
+import subprocess
 import tempfile
 import warnings
 
@@ -620,6 +622,40 @@ def run_c19(tier, seed):
                     oc.failing.append(dict(rec, spec='; '.join(bad), impl={'status': status, 'stderr': se[:400], 'stdout': so[:400]}))
                 oc.count('merge:' + ('ok' if lib is not None else 'error'))
                 oc.nontrivial.add(stable_hash(['merge', lst, opts]))
+        # the real command in a real process whose stdout is NOT UTF-8: either the exact serialisation comes out (every
+        # character encodable) or it is an error (status 2, nothing on stdout) - never something else with status 0
+        enc_sets = {'latin-1 content': [TJ.to_text(B.ro_doc([B.story('A', [B.p('caf\u00e9 \u00a320')])], message_id='1', slug='\u00dcbersicht')),
+                                        TJ.to_text(B.story_append([B.story('B', [B.p('na\u00efve')])], message_id='2')), TJ.to_text(B.ro_delete(message_id='3'))],
+                    'beyond latin-1': [TJ.to_text(B.ro_doc([B.story('A', [B.p('\u20ac 5, \u201cquoted\u201d, \u0175, \u041a\u0438\u0435\u0432, \U0001d11e')])], message_id='1')),
+                                       TJ.to_text(B.ro_delete(message_id='3'))]}
+        for label, docs in enc_sets.items():
+            fns = []
+            for k, t in enumerate(docs):
+                fn = os.path.join(root, f'enc_{label[:3]}_{k}.mos.xml')
+                with open(fn, 'w', encoding='utf-8') as f:
+                    f.write(t)
+                fns.append(fn)
+            with warnings.catch_warnings():
+                warnings.simplefilter('ignore')
+                mc = MosCollection.from_files(fns)
+                mc.merge()
+            lib = str(mc)
+            for enc in ('latin-1', 'ascii', 'utf-8'):
+                code = 'import sys; sys.path.insert(0, %r); from mosromgr.cli import main; sys.exit(main(sys.argv[1:]) or 0)' % impl.REPO
+                env = dict(os.environ, PYTHONIOENCODING=enc, PYTHONDONTWRITEBYTECODE='1')
+                pr = subprocess.run([sys.executable, '-c', code, 'merge', '-f'] + fns, stdout=subprocess.PIPE, stderr=subprocess.PIPE, env=env, timeout=120)
+                oc.evaluations += 1
+                oc.in_domain += 1
+                oc.count('cmd:merge/real-process')
+                try:
+                    want = (lib + '\n').encode(enc)
+                except UnicodeEncodeError:
+                    want = None
+                ok = (pr.returncode == 0 and pr.stdout == want) if want is not None else (pr.returncode == 2 and pr.stdout == b'' and pr.stderr != b'')
+                if not ok:
+                    oc.failing.append({'kind': 'cli-process', 'label': f'merge in a real process, stdout encoding {enc}, {label}', 'docs': docs, 'encoding': enc,
+                                       'spec': 'merge writes exactly the serialisation of the merged collection and exits 0, or exits 2 with a message on stderr and nothing on stdout',
+                                       'impl': {'status': pr.returncode, 'stdout': pr.stdout[:300].decode('latin-1'), 'stderr': pr.stderr[-300:].decode('latin-1')}})
         if len(oc.samples) < 1:
             oc.samples.append({'files': names[:8], 'example': 'detect -f ' + ' '.join(names[:3])})
     finally:
